@@ -1,4 +1,4 @@
-package main
+package common
 
 // Value universe, seeded generators and the Coq rendering of FQL values.
 
@@ -16,13 +16,13 @@ import (
 	"github.com/MontFerret/ferret/pkg/runtime/values/types"
 )
 
-func hx(b []byte) string { return `(hx "` + hex.EncodeToString(b) + `")` }
+func Hx(b []byte) string { return `(hx "` + hex.EncodeToString(b) + `")` }
 
-func coqZ(z int64) string { return fmt.Sprintf("(%d)", z) }
+func CoqZ(z int64) string { return fmt.Sprintf("(%d)", z) }
 
 // coqValue renders a value in the syntax of coq/theories/Value.v.
 // Object members are emitted in the order given by keyOrder (nil = sorted).
-func coqValue(v core.Value) string {
+func CoqValue(v core.Value) string {
 	switch v.Type() {
 	case types.None:
 		return "VNone"
@@ -32,11 +32,11 @@ func coqValue(v core.Value) string {
 		}
 		return "(VBool false)"
 	case types.Int:
-		return "(VInt " + coqZ(int64(v.(values.Int))) + ")"
+		return "(VInt " + CoqZ(int64(v.(values.Int))) + ")"
 	case types.Float:
 		return fmt.Sprintf("(VFloat %d%%N)", math.Float64bits(float64(v.(values.Float))))
 	case types.String:
-		return "(VStr " + hx([]byte(string(v.(values.String)))) + ")"
+		return "(VStr " + Hx([]byte(string(v.(values.String)))) + ")"
 	case types.DateTime:
 		t := v.(values.DateTime).Time
 		off := int64(-1)
@@ -44,12 +44,12 @@ func coqValue(v core.Value) string {
 			_, o := t.Zone()
 			off = int64(o / 60)
 		}
-		return fmt.Sprintf("(VDate %s %s %s)", coqZ(t.Unix()), coqZ(int64(t.Nanosecond())), coqZ(off))
+		return fmt.Sprintf("(VDate %s %s %s)", CoqZ(t.Unix()), CoqZ(int64(t.Nanosecond())), CoqZ(off))
 	case types.Array:
 		arr := v.(*values.Array)
 		parts := make([]string, 0, int(arr.Length()))
 		arr.ForEach(func(x core.Value, _ int) bool {
-			parts = append(parts, coqValue(x))
+			parts = append(parts, CoqValue(x))
 			return true
 		})
 		return "(VArr [" + strings.Join(parts, "; ") + "])"
@@ -68,18 +68,18 @@ func coqValue(v core.Value) string {
 		parts := make([]string, 0, len(keys))
 		for _, k := range keys {
 			x, _ := obj.Get(values.NewString(k))
-			parts = append(parts, "("+hx([]byte(k))+", "+coqValue(x)+")")
+			parts = append(parts, "("+Hx([]byte(k))+", "+CoqValue(x)+")")
 		}
 		return "(VObj [" + strings.Join(parts, "; ") + "])"
 	case types.Binary:
-		return "(VBin " + hx([]byte(v.(values.Binary))) + ")"
+		return "(VBin " + Hx([]byte(v.(values.Binary))) + ")"
 	}
 	return "VNone (* unknown type " + v.Type().String() + " *)"
 }
 
-func arr(xs ...core.Value) core.Value { return values.NewArrayWith(xs...) }
+func Arr(xs ...core.Value) core.Value { return values.NewArrayWith(xs...) }
 
-func obj(kv ...interface{}) core.Value {
+func Obj(kv ...interface{}) core.Value {
 	o := values.NewObject()
 	for i := 0; i+1 < len(kv); i += 2 {
 		o.Set(values.NewString(kv[i].(string)), kv[i+1].(core.Value))
@@ -87,7 +87,7 @@ func obj(kv ...interface{}) core.Value {
 	return o
 }
 
-func date(sec int64, nsec int64, offMin int) core.Value {
+func Date(sec int64, nsec int64, offMin int) core.Value {
 	t := time.Unix(sec, nsec)
 	if offMin == -1 {
 		t = t.UTC()
@@ -100,7 +100,7 @@ func date(sec int64, nsec int64, offMin int) core.Value {
 // scalarPool: every scalar kind, with numerically equal int/float pairs,
 // signed zeros, extreme floats, strings that differ only in case / bytes,
 // same instants in different zones, binaries of equal length.
-func scalarPool() []core.Value {
+func ScalarPool() []core.Value {
 	p := []core.Value{
 		values.None, values.False, values.True,
 	}
@@ -114,8 +114,8 @@ func scalarPool() []core.Value {
 	for _, s := range []string{"", "a", "b", "ab", "A", "é", "\xff", "a:b", ",", "0", "1", "true", "aa", "\x00", "\U0001F600"} {
 		p = append(p, values.NewString(s))
 	}
-	p = append(p, date(0, 0, -1), date(0, 0, 0), date(0, 0, 60), date(0, 1, -1), date(1, 0, -1),
-		date(-1, 999999999, -1), date(1700000000, 5, -120), date(253402300799, 0, -1))
+	p = append(p, Date(0, 0, -1), Date(0, 0, 0), Date(0, 0, 60), Date(0, 1, -1), Date(1, 0, -1),
+		Date(-1, 999999999, -1), Date(1700000000, 5, -120), Date(253402300799, 0, -1))
 	for _, b := range [][]byte{{}, {0}, {1}, {0, 0}, {97}, {255, 1, 2}} {
 		p = append(p, values.NewBinary(b))
 	}
@@ -124,17 +124,17 @@ func scalarPool() []core.Value {
 
 // universe: scalars, all width<=1 arrays/objects over a sub-pool, width-2 over a
 // smaller sub-pool, depth-2 nestings, plus n random deeper values.
-func universe(rng *rand.Rand, nRandom int, tier string) []core.Value {
-	sc := scalarPool()
+func Universe(rng *rand.Rand, nRandom int, tier string) []core.Value {
+	sc := ScalarPool()
 	u := append([]core.Value{}, sc...)
 	small := []core.Value{values.None, values.True, values.Int(1), values.Float(1.0), values.Int(2),
-		values.NewString("a"), values.NewString("b"), date(0, 0, -1), values.NewBinary([]byte{1})}
-	u = append(u, arr(), obj())
+		values.NewString("a"), values.NewString("b"), Date(0, 0, -1), values.NewBinary([]byte{1})}
+	u = append(u, Arr(), Obj())
 	for _, x := range sc {
-		u = append(u, arr(x))
+		u = append(u, Arr(x))
 	}
 	for _, x := range small {
-		u = append(u, obj("a", x), obj("b", x))
+		u = append(u, Obj("a", x), Obj("b", x))
 	}
 	w2 := small
 	if tier != "thorough" {
@@ -142,24 +142,24 @@ func universe(rng *rand.Rand, nRandom int, tier string) []core.Value {
 	}
 	for _, x := range w2 {
 		for _, y := range w2 {
-			u = append(u, arr(x, y))
-			u = append(u, obj("a", x, "b", y))
+			u = append(u, Arr(x, y))
+			u = append(u, Obj("a", x, "b", y))
 		}
 	}
 	for _, x := range w2 {
-		u = append(u, arr(arr(x)), arr(obj("a", x)), obj("a", arr(x)), obj("a", obj("a", x)), obj("a", x, "c", x), obj("", x))
+		u = append(u, Arr(Arr(x)), Arr(Obj("a", x)), Obj("a", Arr(x)), Obj("a", Obj("a", x)), Obj("a", x, "c", x), Obj("", x))
 	}
-	u = append(u, arr(arr()), arr(obj()), obj("a", arr()), obj("a", obj()), arr(arr(), arr()), arr(values.Int(1), values.Int(2), values.Int(3)))
+	u = append(u, Arr(Arr()), Arr(Obj()), Obj("a", Arr()), Obj("a", Obj()), Arr(Arr(), Arr()), Arr(values.Int(1), values.Int(2), values.Int(3)))
 	for i := 0; i < nRandom; i++ {
-		u = append(u, randValue(rng, 3))
+		u = append(u, RandValue(rng, 3))
 	}
 	return u
 }
 
-var keyPool = []string{"a", "b", "c", "A", "", "a:b", "k,", "é", "zz"}
+var KeyPool = []string{"a", "b", "c", "A", "", "a:b", "k,", "é", "zz"}
 
-func randScalar(rng *rand.Rand) core.Value {
-	sc := scalarPool()
+func RandScalar(rng *rand.Rand) core.Value {
+	sc := ScalarPool()
 	switch rng.Intn(6) {
 	case 0:
 		return values.Int(rng.Int63n(2001) - 1000)
@@ -177,23 +177,23 @@ func randScalar(rng *rand.Rand) core.Value {
 	}
 }
 
-func randValue(rng *rand.Rand, depth int) core.Value {
+func RandValue(rng *rand.Rand, depth int) core.Value {
 	if depth == 0 || rng.Intn(3) == 0 {
-		return randScalar(rng)
+		return RandScalar(rng)
 	}
 	n := rng.Intn(4)
 	if rng.Intn(2) == 0 {
 		xs := make([]core.Value, n)
 		for i := range xs {
-			xs[i] = randValue(rng, depth-1)
+			xs[i] = RandValue(rng, depth-1)
 		}
-		return arr(xs...)
+		return Arr(xs...)
 	}
 	o := values.NewObject()
 	for i := 0; i < n; i++ {
-		o.Set(values.NewString(keyPool[rng.Intn(len(keyPool))]), randValue(rng, depth-1))
+		o.Set(values.NewString(KeyPool[rng.Intn(len(KeyPool))]), RandValue(rng, depth-1))
 	}
 	return o
 }
 
-func kindOf(v core.Value) string { return v.Type().String() }
+func KindOf(v core.Value) string { return v.Type().String() }
